@@ -18,12 +18,58 @@ def run(tier, seed, replay=None):
     expectations = [{"src": p["src"], "field": "trace", "want": p["want"],
                      "why": "the observations of a container history equal those of the same operations on Go values"} for p in data["untyped"]]
 
+    def model_obs(x):
+        """an observation of the typed-container model in the harness's trace syntax"""
+        from c11 import unhex_strings
+        tag = x[0]
+        if tag == b"E":
+            return "(string:E)"
+        if tag == b"nil":
+            return "(nil)"
+        if tag == b"v":
+            return "(" + unhex_strings(x[1].decode("latin-1")) + ")"
+        if tag == b"m":
+            ents = sorted(unhex_strings(e[0].decode("latin-1")) + "=>" + unhex_strings(e[1].decode("latin-1")) for e in x[2:])
+            return "(" + x[1].decode() + "{" + ",".join(ents) + "})"
+        return "?" + repr(x)
+
+    def typed_model(res, scratch):
+        tcases = data.get("typed_model") or []
+        if not tcases:
+            return {}
+        driver, _, _ = common.build_model()
+        path = os.path.join(scratch, "typed.sx")
+        with open(path, "w") as f:
+            for c in tcases:
+                f.write("c10t " + c["model_in"] + "\n")
+        bad, kinds, nobs, nerr = 0, {}, 0, 0
+        for c, line in zip(tcases, common.run_driver(driver, path)):
+            kinds[c["kind"].split("]")[0] + ("]" if "]" in c["kind"] else "")] = kinds.get(c["kind"].split("]")[0] + ("]" if "]" in c["kind"] else ""), 0) + 1
+            try:
+                want = [model_obs(o) for o in common.parse_sexp(line)]
+            except Exception as e:
+                want = ["unreadable model answer: %s" % line[:100]]
+            got = c["got"] or []
+            nobs += len(want)
+            nerr += sum(1 for w in want if w == "(string:E)")
+            if got != want:
+                bad += 1
+                k = next((i for i in range(max(len(got), len(want))) if i >= len(got) or i >= len(want) or got[i] != want[i]), 0)
+                if bad <= 8:
+                    res.violation({"property": "C10", "kind": "a typed container differs from its model (coq/Conv/Typed.v, theorems of Properties/C10.v)",
+                                   "source": c["src"], "first_difference": "observation %d" % k, "implementation": got[k] if k < len(got) else "<missing>",
+                                   "model": want[k] if k < len(want) else "<missing>", "model_input": c["model_in"],
+                                   "how_to_replay": "vm.Execute with probe defined; compare the probe log with the model's observations"})
+        return {"typed_model_histories": len(tcases), "typed_model_mismatches": bad, "typed_model_kinds": kinds, "typed_model_observations": nobs,
+                "typed_model_error_observations": nerr}
+
     def extra(res, scratch, harness):
         for p in (data["typed_problems"] or [])[:8]:
             res.violation({"property": "C10", "kind": "a typed container does not behave like the Go value of its declared type",
                            "source": p["src"], "history": p["history"], "first_difference": p["step"], "implementation": p["got"], "native_go": p["want"],
                            "how_to_replay": "vm.Execute with probe defined; compare the probe log with the native history"})
-        return {"typed_histories": data["typed_count"], "typed_mismatches": len(data["typed_problems"] or []), "typed_kinds": data["typed_kinds"],
+        tm = typed_model(res, scratch)
+        return {**tm, "typed_histories": data["typed_count"], "typed_mismatches": len(data["typed_problems"] or []), "typed_kinds": data["typed_kinds"],
                 "native_reference": "harness/c10.go: each step is also performed on Go values ([]interface{}, map[interface{}]interface{}, string; "
                                     "typed: []int64, []string, []float64, []bool, []interface{}, map[string]int64, map[int64]string, map[string]interface{} "
                                     "with reflect conversion for stores)"}
@@ -37,7 +83,9 @@ def run(tier, seed, replay=None):
              "store / read / delete / alias / member syntax with string, int, float, bool, slice and map keys, membership, lengths; every step "
              "wrapped in try/catch and observed through probe(), final contents of all variables observed; compared three ways: model = "
              "implementation (extracted interpreter model) and implementation = native Go reference; plus typed container histories "
-             "(implementation = native Go only)",
+             "against native Go, and typed histories over the model's universe (slices, maps with string / integer / bool keys and struct values "
+             "of element types int64, int8, uint8, int32, uint16, string, bool, interface{} and slices of these; values nil, booleans, integers "
+             "beyond every width, strings, lists) against the extracted model of Conv/Typed.v (entry c10t)",
         design_ref="DESIGN.md §4 C10", expectations=expectations, max_dropped=0.25, extra=extra,
         extra_assumptions=["slicing is bounded by len (the language's rule), not by cap as in Go", "`in` is exercised with same-type operands only",
                            "struct values made with make: six fields (int64, string, float64, bool, []int64, map[string]int64), stores through an alias, unknown fields"])
